@@ -153,54 +153,72 @@ def extract(hi, lo, t):
         return z3.BitVecVal((t.as_long() >> lo) & ((1 << (hi - lo + 1)) - 1), hi - lo + 1)
     return z3.Extract(hi, lo, t)
 
-_PARTS = {}     # id of a concatenation built by concat() -> (term, canonical list of its parts)
-def _parts(t):
-    """the parts (most significant first) of a concatenation; canonical lists are cached for terms built by concat()"""
+class _P(object):
+    """one part of a concatenation with its metadata cached (z3py accessor calls are the hot spot otherwise)"""
+    __slots__ = ('t', 'id', 'size', 'val', 'hi', 'lo', 'base', 'baseid')
+    def __init__(self, t):
+        self.t = t; self.id = t.get_id(); self.size = t.size(); self.val = None; self.base = None
+        if z3.is_bv_value(t): self.val = t.as_long()
+        elif t.decl().kind() == z3.Z3_OP_EXTRACT:
+            self.hi, self.lo = t.params(); self.base = t.arg(0); self.baseid = self.base.get_id()
+
+_PARTS = {}     # id of a concatenation built by concat() -> (term, canonical list of _P parts)
+_TERM_OF = {}   # tuple of part ids -> term: a concatenation that extends a known one reuses its term
+def _plist(t):
     r = _PARTS.get(t.get_id())
     if r is not None: return r[1]
     if t.decl().kind() == z3.Z3_OP_CONCAT:
         out = []
-        for c in t.children(): out = _join(out, _parts(c))
+        for c in t.children(): _extend(out, _plist(c))
         return out
-    return [t]
+    return [_P(t)]
+
+def _parts(t):
+    """the parts (most significant first) of a concatenation, as terms"""
+    return [p.t for p in _plist(t)]
 
 def _merge2(q, p):
-    """merged term when q (more significant) and p are adjacent numerals or adjacent extractions of one term, else None"""
-    qv, pv = z3.is_bv_value(q), z3.is_bv_value(p)
-    if qv and pv:
-        return z3.BitVecVal((q.as_long() << p.size()) | p.as_long(), q.size() + p.size())
-    if qv or pv: return None
-    if q.decl().kind() == z3.Z3_OP_EXTRACT and p.decl().kind() == z3.Z3_OP_EXTRACT:
-        hq, lq = q.params(); hp, lp = p.params()
-        if lq == hp + 1 and q.arg(0).eq(p.arg(0)):
-            return extract(hq, lp, q.arg(0))
+    """merged part when q (more significant) and p are adjacent numerals or adjacent extractions of one term, else None"""
+    if q.val is not None and p.val is not None:
+        return _P(z3.BitVecVal((q.val << p.size) | p.val, q.size + p.size))
+    if q.base is not None and p.base is not None and q.lo == p.hi + 1 and q.baseid == p.baseid:
+        return _P(extract(q.hi, p.lo, q.base))
     return None
 
-def _join(A, B):
-    """concatenate two canonical part lists, merging at the seam only"""
-    if not A: return list(B)
-    if not B: return list(A)
-    A = list(A); B = list(B)
-    while A and B:
-        m = _merge2(A[-1], B[0])
-        if m is None: break
-        A.pop(); B[0] = m
-    return A + B
+def _extend(out, ps):
+    """append the canonical part list ps to out, merging at the seam only"""
+    first = True
+    for q in ps:
+        if first and out:
+            m = _merge2(out[-1], q)
+            while m is not None:
+                out.pop(); q = m
+                m = _merge2(out[-1], q) if out else None
+        first = False
+        out.append(q)
 
 def concat(parts):
     """concatenation (most significant part first) with adjacent extractions of one term and adjacent numerals merged"""
     out = []
-    for p in parts: out = _join(out, _parts(p))
-    if len(out) == 1: return out[0]
-    t = z3.Concat(*out)
+    for p in parts: _extend(out, [p] if isinstance(p, _P) else _plist(p))
+    if len(out) == 1: return out[0].t
+    key = tuple([x.id for x in out])
+    hit = _TERM_OF.get(key)
+    if hit is not None: return hit
+    pre = _TERM_OF.get(key[:-1]) if len(out) > 2 else None
+    if pre is not None: t = z3.Concat(pre, out[-1].t)
+    else:
+        suf = _TERM_OF.get(key[1:]) if len(out) > 2 else None
+        t = z3.Concat(out[0].t, suf) if suf is not None else z3.Concat(*[x.t for x in out])
+    _TERM_OF[key] = t
     _PARTS[t.get_id()] = (t, out)
     return t
 
 def _is_zero_low(t, k):
     """t == Concat(hi, 0_k') with k' >= k ?  returns hi-part list or None"""
-    ps = _parts(t)
+    ps = _plist(t)
     last = ps[-1]
-    if z3.is_bv_value(last) and last.as_long() == 0 and last.size() >= k:
+    if last.val == 0 and last.size >= k:
         return ps
     return None
 
@@ -390,7 +408,7 @@ def _orx(op, is_or=False):
                     ps = _is_zero_low(x.t, y.w)
                     if ps is not None:
                         # x = hi || 0..0 and y fits into the zero part: the or/xor is a concatenation
-                        z = ps[-1].size()
+                        z = ps[-1].size
                         mid = [z3.BitVecVal(0, z - y.w)] if z > y.w else []
                         return mk(concat(ps[:-1] + mid + [y.t]), 0, (1 << x.w) - 1)
             w = max(a.w, b.w)
